@@ -178,6 +178,15 @@ func newC13World(r *mrand.Rand, flavour, pfx string, variant int) (*c13W, error)
 		}),
 		provider.WithCIBAGrant(
 			func(_ context.Context, s *goidc.AuthnSession) error {
+				// the embedder refuses some hints: a refused backchannel request must leave no session behind
+				switch s.LoginHint {
+				case "nobody":
+					return goidc.NewError(goidc.ErrorCodeUnknownUserID, "unknown user")
+				case "gone":
+					return goidc.NewError(goidc.ErrorCodeExpiredLoginHintToken, "expired hint")
+				case "boom":
+					return fail()
+				}
 				s.SetUserID("user1")
 				s.GrantScopes(s.Scopes)
 				return nil
@@ -951,7 +960,7 @@ func (w *c13W) gen() rawReq {
 		maybeDPoP("POST", "/par")
 		return finish("/par", f)
 	case k < 75: // bc-authorize
-		f := form{{"scope", "openid email"}, {"login_hint", "user1"}, {"client_notification_token", "cnt-0123456789"}}
+		f := form{{"scope", "openid email"}, {"login_hint", pick(r, []string{"user1", "user1", "user1", "nobody", "gone", "boom"})}, {"client_notification_token", "cnt-0123456789"}}
 		f = w.auth(pick(r, []string{"c1", "c3", "c4", "c5"}), f, &hdr)
 		for i, n := 0, 1+r.Intn(2); i < n; i++ {
 			fld := pick(r, []string{"login_hint_token", "id_token_hint", "request", "user_code", "requested_expiry", "client_notification_token", "binding_message",
